@@ -67,6 +67,19 @@ fn refcell_service_transparent() {
     assert!(c.try_borrow_mut().is_ok());
 }
 
+/// RefCell<S> needs only SHARED access to the cell, like every other `&self` wrapper: with a shared borrow outstanding
+/// (a re-entrant inner service, or a combinator that also holds the cell) the wrapper is still transparent — it does
+/// not add a BorrowMutError panic that `&S` / `Rc<S>` would not have.     [C11]
+#[kani::proof]
+fn refcell_service_transparent_under_shared_borrow() {
+    let c = RefCell::new(Leaf { id: 2 });
+    let held = c.borrow();                              // what a re-entrant call from inside S::call would hold
+    check_service_transparent(&c, 2);
+    assert!(held.id == 2);
+    drop(held);
+    assert!(c.try_borrow_mut().is_ok());
+}
+
 #[kani::proof]
 fn rc_arc_factory_transparent() {
     check_factory_transparent(&Rc::new(LeafFactory { id: 0 }), 0);
